@@ -2321,3 +2321,174 @@ Theorem new_required_src so X h ents d v :
   alist_get ents (s2p "_required") = Some v ->
   StructMeta_new__set_required so X h (PDict (skeys ents)) d = Ok v.
 Proof. intro H. unfold StructMeta_new__set_required. rewrite dict_get_skeys_def, H. reflexivity. Qed.
+
+(* ================================================================== _instantiate_fields_if_needed *)
+
+(* The model's class statement holds Field / Constant OBJECTS (the Field constructors have run: [field_init]);
+   a Field class or a function returning a Field, which _instantiate_fields_if_needed would call, is not a
+   member of the model.  On such a class dict the function changes nothing.  An entry is left alone when its
+   name is a special attribute or starts with "__", when its value is a Field, or when the value is neither a
+   class deriving from Field (no Field in its __mro__) nor, according to the oracle, a function returning one. *)
+Definition special_attrs : list pystr :=
+  map s2p ["_required"; "_additional_properties"; "_additionalProperties"; "_immutable"; "_defaults"; "_optional";
+           "_serialization_mapper"; "_deserialization_mapper"; "_ignore_none"; "_enable_undefined_value";
+           "_versions_mapping"]%string.
+
+Definition entry_left_alone (X : ext_oracle) (h : heap) (nv : pystr * pyval) : Prop :=
+  str_in (fst nv) special_attrs = true \/
+  obj_isinstance h (snd nv) (s2p "Field") = Ok true \/
+  (obj_isinstance h (snd nv) (s2p "Field") = Ok false /\ starts_with (s2p "__") (fst nv) = true) \/
+  (obj_isinstance h (snd nv) (s2p "Field") = Ok false /\
+   (exists l, dv_getattr_def h (snd nv) (s2p "__mro__") (PList []) = Ok (PList l) /\ py_in (ref (s2p "Field")) l = false) /\
+   X (s2p "is_function_returning_field") h [snd nv] = Ok (h, PBool false, [snd nv])).
+
+Theorem instantiate_frame_src so X h ents defs :
+  (forall nv, In nv ents -> entry_left_alone X h nv) ->
+  DefineSrc.instantiate_fields_if_needed so X h (PDict (skeys ents)) defs = Ok (h, PNone, PDict (skeys ents)).
+Proof.
+  intro Hall. unfold DefineSrc.instantiate_fields_if_needed. rewrite items_skeys. cbn [bind].
+  rewrite deref_view, iter_items_view. cbn [bind].
+  match goal with |- context [@dv_foldM ?S ?F] => set (BODY := F) end.
+  assert (Hloop : forall l, (forall nv, In nv l -> entry_left_alone X h nv) -> forall d,
+            py_foldM BODY (map v_item l) (h, d) = Ok (h, d)).
+  { induction l as [|[n v] t IH]; intros Hl d; [reflexivity|].
+    cbn [map py_foldM]. unfold BODY at 1. unfold v_item at 1. cbn [fst snd]. unfold py_unpack. cbn [py_iter_items bind length Nat.eqb].
+    name_set_display. cbn [bind]. rewrite deref_set, in_set. cbn [py_not bind].
+    match goal with |- context [str_in n ?L] => replace (str_in n L) with (str_in n special_attrs) by (apply str_in_ext; intro x; vm_compute; tauto) end.
+    assert (Ht : forall nv, In nv t -> entry_left_alone X h nv) by (intros nv Hnv; apply Hl; right; exact Hnv).
+    destruct (Hl (n, v) (or_introl eq_refl)) as [H|[H|[[H1 H2]|[H1 [[l' [H2 H3]] H4]]]]]; cbn [fst snd] in *.
+    - rewrite H. cbn [negb bind]. apply IH. exact Ht.
+    - destruct (str_in n special_attrs); cbn [negb bind]; [apply IH; exact Ht|]. rewrite H. cbn [py_not bind negb]. apply IH. exact Ht.
+    - destruct (str_in n special_attrs); cbn [negb bind]; [apply IH; exact Ht|]. rewrite H1. cbn [py_not bind negb].
+      cbn [dv_startswith]. rewrite <- starts_with_eq, H2. cbn [py_not negb bind]. apply IH. exact Ht.
+    - destruct (str_in n special_attrs); cbn [negb bind]; [apply IH; exact Ht|]. rewrite H1. cbn [py_not bind negb].
+      cbn [dv_startswith]. destruct (PyOpsFields.str_prefix (s2p "__") n); cbn [py_not negb bind]; [apply IH; exact Ht|].
+      rewrite H2. cbn [bind]. rewrite deref_list. cbn [dv_in py_in_dyn]. unfold py_in_lit. rewrite H3. cbn [bind].
+      rewrite H4. cbn [bind]. rewrite unchanged_refl. cbn [bind py_truthy]. apply IH. exact Ht. }
+  unfold dv_foldM. rewrite Hloop by exact Hall. reflexivity.
+Qed.
+
+(* ================================================================== the hypotheses are satisfiable; concrete runs *)
+
+Definition nm := s2p.
+Definition T : N -> pystr -> bool := fun _ _ => true.
+Definition X0 : ext_oracle := fun _ _ _ => Raise Unmodelled.
+Definition ex_f_int : field := FNumber KInteger SAny no_numc.
+Definition ex_stmt (name : string) (bases : list pystr) (ms : list (pystr * mstmt)) (req : option (list pystr)) : classstmt :=
+  {| s_name := nm name; s_bases := bases; s_members := ms; s_required := req; s_optional := None;
+     s_additional := None; s_ignore_none := None; s_attrs := []; s_keys_of := [] |}.
+
+(* class A(Structure): x = Integer(); y = Integer(); _required = ["y"]     class M: pass (a mix-in) *)
+Definition ex_A : classstmt :=
+  ex_stmt "A" [n_Structure] [(nm "x", SDecl ex_f_int false None None); (nm "y", SDecl ex_f_int false None None)] (Some [nm "y"]).
+Definition ex_gA : genv :=
+  Eval vm_compute in match define T [] default_guards genv0 ex_A with Ok a => mixin (nm "M") :: a :: genv0 | Raise _ => [] end.
+
+Definition ex_gI : genv :=
+  Eval vm_compute in match define T [] default_guards genv0 (ex_stmt "I" [n_Immutable] [(nm "a", SDecl ex_f_int false None None)] None) with
+                     | Ok i => i :: genv0 | Raise _ => [] end.
+
+(* make_signature: a class body with fields a (required), b (default), x (overriding the base's optional x),
+   over the parameters of A *)
+Example ex_make_signature :
+  sig_inputs_ok [nm "a"; nm "b"; nm "x"] [(nm "y", true); (nm "x", false)] = true /\
+  DefineSrc.make_signature (fun l => l) X0 (fun _ _ => None) (v_names [nm "a"; nm "b"; nm "x"]) (v_names [nm "a"; nm "x"])
+    (PBool true) (v_params [(nm "y", true); (nm "x", false)]) (v_names [nm "y"]) (v_keys []) =
+  Ok (v_sig [nm "y"; nm "x"; nm "a"] [nm "b"] true) /\
+  Define.make_signature [nm "a"; nm "b"; nm "x"] [nm "a"; nm "x"] [(nm "y", true); (nm "x", false)] [] =
+  Ok {| sg_req := [nm "y"; nm "x"; nm "a"]; sg_opt := [nm "b"] |} /\
+  (* a field with a default that a base requires: duplicate parameter *)
+  DefineSrc.make_signature (fun l => l) X0 (fun _ _ => None) (v_names [nm "y"]) (v_names [])
+    (PBool true) (v_params [(nm "y", true)]) (v_names [nm "y"]) (v_keys []) = Raise ValueError.
+Proof. repeat split; vm_compute; reflexivity. Qed.
+
+(* get_base_info / _check_for_final_violations on the environment {Structure..., A, M} *)
+Example ex_get_base_info :
+  bases_ok ex_gA (fun _ => []) [nm "M"; nm "A"] = true /\
+  base_info default_guards ex_gA [nm "M"; nm "A"] [] false = Ok [(nm "y", true); (nm "x", false)] /\
+  DefineSrc.get_base_info (fun l => l) X0 (genv_heap default_guards ex_gA (fun _ => [])) (PTuple (v_refs [nm "M"; nm "A"])) =
+  Ok (PTuple [v_params [(nm "y", true); (nm "x", false)]; v_names [nm "y"]]) /\
+  DefineSrc.check_for_final_violations (fun l => l) X0 (genv_heap default_guards ex_gA (fun _ => []))
+    (PList (v_refs [nm "B"; nm "A"; n_Structure])) = Ok PNone /\
+  (* class I(ImmutableStructure); class J(I): refused *)
+  DefineSrc.check_for_final_violations (fun l => l) X0 (genv_heap default_guards ex_gI (fun _ => []))
+    (PList (v_refs [nm "J"; nm "I"; n_Immutable; n_Structure])) = Raise TypeError /\
+  DefineSrc.check_for_final_violations (fun l => l) X0 (genv_heap default_guards ex_gI (fun _ => []))
+    (PList (v_refs [nm "I"; n_Immutable; n_Structure])) = Ok PNone /\
+  mro_plain ex_gA [nm "A"; n_Structure] = true /\
+  DefineSrc.get_all_fields_by_name (fun l => l) X0 (genv_heap default_guards ex_gA (fun _ => [])) (ref (nm "A")) =
+  Ok (PDict (skeys [(nm "x", ref (member_obj (nm "A") (nm "x"))); (nm "y", ref (member_obj (nm "A") (nm "y")))])).
+Proof. repeat split; vm_compute; reflexivity. Qed.
+
+(* _block_invalid_consts: `flag = True` is refused, an annotated name and a known attribute are not *)
+Example ex_block_invalid_consts :
+  let ents := [(nm "__annotations__", PDict (skeys [(nm "a", PStr (nm "Integer"))]));
+               (nm "a", PBool true); (nm "_required", PList []); (nm "flag", PBool true)] in
+  annotations_are (fun _ _ => None) ents [(nm "a", PStr (nm "Integer"))] /\
+  DefineSrc.block_invalid_consts (fun l => l) X0 (fun _ _ => None) (PDict (skeys ents)) = Raise ValueError /\
+  DefineSrc.block_invalid_consts (fun l => l) X0 (fun _ _ => None) (PDict (skeys (firstn 3 ents))) = Ok PNone.
+Proof. repeat split; vm_compute; reflexivity. Qed.
+
+(* _apply_default_and_update_required_...: `a: Integer = 5`, `b: Integer` with _required absent *)
+Definition ex_pre : members :=
+  [(nm "a", MField {| fo_field := ex_f_int; fo_immutable := false; fo_default := None |});
+   (nm "b", MField {| fo_field := ex_f_int; fo_immutable := false; fo_default := None |})].
+Definition ex_defs : list (pystr * defval) := [(nm "a", DLit (PNum (NInt 5)))].
+Definition ex_ents : list (pystr * pyval) := [(nm "a", fld_ref (nm "a")); (nm "b", fld_ref (nm "b"))].
+Definition ex_X : ext_oracle :=
+  fun name hh args =>
+    match args with
+    | [r; v] => match vset T [] ex_f_int v with Ok _ => Ok (hh, PNone, args) | Raise x => Raise x end
+    | _ => Raise Unmodelled
+    end.
+
+Example ex_apply_default :
+  defaults_normal ex_pre = true /\ forallb (member_ok ex_defs) ex_pre = true /\
+  forallb (fun nd => eqd_plain (snd nd)) ex_defs = true /\
+  (exists h',
+     DefineSrc.apply_default_and_update_required (fun l => l) ex_X (members_heap (fun _ _ => None) ex_pre)
+       (PDict (skeys ex_ents)) (v_defs ex_defs) (v_names [nm "a"; nm "b"]) =
+     Ok (h', PNone, PDict (skeys (ex_ents ++ [(nm "_required", v_names [nm "b"])]))) /\
+     h' (fobj (nm "a")) n__default = Some (PNum (NInt 5))) /\
+  own_required (ex_stmt "C" [n_Structure] [] None)
+    [(nm "a", MField {| fo_field := ex_f_int; fo_immutable := false; fo_default := Some (DLit (PNum (NInt 5))) |});
+     (nm "b", MField {| fo_field := ex_f_int; fo_immutable := false; fo_default := None |})] = [nm "b"].
+Proof.
+  split; [reflexivity|]. split; [reflexivity|]. split; [reflexivity|]. split; [|reflexivity].
+  eexists. split; [vm_compute; reflexivity|]. vm_compute. reflexivity.
+Qed.
+
+(* the oracle hypothesis of apply_default_src holds for this oracle *)
+Example ex_apply_default_oracle : forall hh n fo v, alist_get ex_pre n = Some (MField fo) ->
+  ex_X (s2p "._try_default_value") hh [fld_ref n; v] =
+  match vset T [] (fo_field fo) v with Ok _ => Ok (hh, PNone, [fld_ref n; v]) | Raise x => Raise x end.
+Proof.
+  intros hh n fo v H. unfold ex_pre in H. cbn [alist_get] in H.
+  destruct (pystr_eqb (nm "a") n); [inversion H; subst; reflexivity|].
+  destruct (pystr_eqb (nm "b") n); [inversion H; subst; reflexivity|discriminate].
+Qed.
+
+(* StructMeta.__new__, statement by statement *)
+Example ex_new_statements :
+  StructMeta_new__for_f (fun l => l) X0 (fun _ _ => None) (v_names [nm "y"]) (v_names [nm "b"]) (v_names [nm "y"]) = Raise ValueError /\
+  StructMeta_new__for_f (fun l => l) X0 (fun _ _ => None) (v_names [nm "y"]) (v_names [nm "b"]) (v_names [nm "a"]) = Ok tt /\
+  (match StructMeta_new__for_field_name (fun l => l) X0 (fun _ _ => None) (PDict (skeys ex_ents)) (v_names [nm "a"; nm "_b"]) with
+   | Raise ValueError => true | _ => false end) = true.
+Proof. repeat split; vm_compute; reflexivity. Qed.
+
+(* ------------------------------------------------------------------ assumptions *)
+Print Assumptions make_signature_src.
+Print Assumptions check_final_src.
+Print Assumptions get_base_info_src.
+Print Assumptions block_invalid_consts_gen.
+Print Assumptions block_invalid_consts_src.
+Print Assumptions apply_default_src.
+Print Assumptions build_members_two_phases.
+Print Assumptions get_all_fields_by_name_src.
+Print Assumptions fields_of_mro_fold.
+Print Assumptions mro_fold_map.
+Print Assumptions instantiate_frame_src.
+Print Assumptions new_field_names_src.
+Print Assumptions new_optional_check_src.
+Print Assumptions new_required_attr_src.
+Print Assumptions new_required_src.
